@@ -6,6 +6,7 @@ import (
 	"encoding/json"
 	"fmt"
 	"os"
+	"runtime"
 	"runtime/debug"
 	"strconv"
 	"strings"
@@ -136,6 +137,11 @@ func Worker(t *testing.T, run RunFunc) {
 			break
 		}
 		seed := first + uint64(i)
+		// package-level sync.Pools of the system under test (e.g. the request pool
+		// of kv/aof) hold channels created inside the previous run's bubble; two
+		// collections empty every pool
+		runtime.GC()
+		runtime.GC()
 		t0 := time.Now()
 		res := run(t, prop, seed, tier, nil)
 		res.WallMicros = time.Since(t0).Microseconds()
